@@ -155,9 +155,10 @@ def c18_aero_point_drag(rng, tier):
     viscous and wave drag vanish when switched off and are positive when on (wave drag above onset only)"""
     surfaces = _aero_config(rng, tier)
     for s in surfaces:
-        s["with_wave"] = gen.flag(rng, bool(rng.integers(2)))
+        s["with_wave"] = gen.flag(rng, bool(rng.uniform() < 0.7))
         s["t_over_c_cp"] = np.array([float(rng.uniform(0.08, 0.16))])
-    flow = _flow(rng, Mach_number=float(rng.uniform(0.3, 0.9)))
+        s["CL0"] = float(rng.choice([0.0, rng.uniform(0.05, 0.4)]))
+    flow = _flow(rng, Mach_number=float(rng.choice([rng.uniform(0.3, 0.7), rng.uniform(0.78, 0.92)])))
     if any(s["symmetry"] for s in surfaces):
         flow["beta"] = 0.0
     prob = pipelines.run_aero_point(surfaces, flow)
@@ -178,6 +179,19 @@ def c18_aero_point_drag(rng, tier):
             out.append(_fail("viscous drag is not a positive finite number although it is switched on", r["CDv"], "> 0", **case))
         if not s["with_wave"] and r["CDw"] != 0.0:
             out.append(_fail("wave drag is not zero although it is switched off", r["CDw"], 0.0, **case))
+        if s["with_wave"]:
+            # the wave drag of the surface is that of its own lift coefficient CL (= CL1 + CL0) and of its own geometry: the real
+            # WaveDrag component alone, fed with the quantities the assembled point exposes
+            from openaerostruct.aerodynamics.wave_drag import WaveDrag
+            from .core import comp_problem
+            g = {k: np.array(prob.get_val("pt.%s.%s" % (n, k))) for k in ("widths", "lengths_spanwise", "chords")}
+            toc = np.array(prob.get_val("pt.%s_perf.t_over_c" % n))
+            pw = comp_problem(WaveDrag(surface=s), dict(Mach_number=flow["Mach_number"], CL=r["CL"], widths=g["widths"],
+                                                        lengths_spanwise=g["lengths_spanwise"], chords=g["chords"], t_over_c=toc))
+            req = float(pw.get_val("CDw")[0])
+            if abs(r["CDw"] - req) > 1e-12 * max(abs(req), 1e-12):
+                out.append(_fail("the wave drag inside the assembled point is not that of the surface lift coefficient CL = CL1 + CL0",
+                                 r["CDw"], req, CL=r["CL"], CL0=s["CL0"], Mach=flow["Mach_number"], **case))
         if r["CDw"] < 0.0 or not np.isfinite(r["CDw"]):
             out.append(_fail("wave drag is negative or not finite", r["CDw"], ">= 0", **case))
     return out
@@ -568,10 +582,13 @@ def c07_left_right(rng, tier):
 # ---------------------------------------------------------------------------------------
 @oracle("C08", "method_of_images")
 def c08_images(rng, tier):
-    ns = int(rng.choice([1, 1, 2]))
+    from . import oracles as _o
+    ns = int(rng.choice([1, 2, 2, 3]))
+    same_size = bool(_o.CURRENT_K % 2 == 1)        # biplane / tandem wings: several ground-effect surfaces of identical (nx, ny)
     surfaces = []
     for k in range(ns):
-        nx, ny = _sizes(rng, tier)
+        if k == 0 or not same_size:
+            nx, ny = _sizes(rng, tier)
         mesh = _clean_half(rng, nx, ny, right=bool(rng.uniform() < 0.3))
         mesh[:, :, 0] += 5.0 * k; mesh[:, :, 2] += 0.8 * k
         surfaces.append(_surf("s%d" % k, mesh, True, rng, groundplane=True))
